@@ -10,7 +10,8 @@ with what the model computes.  The schedule of the consumer goroutines and the e
 the theorems of Props/C01 apply to it.
 
   pipe init <cap> <medias> <kinds>     medias: `pt:ssrc,pt:ssrc;pt:ssrc`   kinds: one of t|u per reader → ok
-  pipe setup <r> <m>                   → ch <channel> | no
+  pipe setup <r> <m> <c|->             SETUP of media m; c: first id of an explicit `interleaved=c-(c+1)`,
+                                       `-`: the server picks the pair → ch <channel> | no (refused: 400)
   pipe play <r>                        → ok | no
   pipe write <m> <pt> <seq> <ts> <mk> <ssrc> <payload> <outs>
         outs: per reader `-` not fanned out, `a` no error, `f` queue-full error   → the model's string
@@ -149,11 +150,11 @@ def mk : IO Handler := do
         ref.set { cfg := { cap := c, medias := ms }, st := init ks, aux := ks.map fun _ => {}, events := 0 }
         return "ok"
       | _, _ => return "bad-op"
-    | ["setup", r, m] =>
+    | ["setup", r, m, c] =>
       match r.toNat?, m.toNat? with
       | some r, some m =>
         let before := (d.rd r).meds.length
-        let d' := d.ev (.ctl r (.setup m))
+        let d' := d.ev (.ctl r (.setup m (if c == "-" then none else c.toNat?)))
         ref.set d'
         if (d'.rd r).meds.length == before then return "no"
         else return s!"ch {chanOf (d'.rd r) m}"
